@@ -14,7 +14,8 @@ RULE = ('cases = (a) ResourceMatcher unit cases and (b) every selector-taking pr
         'selector selects a proper, non-empty subset or is rejected; distinct = distinct case digest'
         '; round 4: every resource carries its own values; systematic non-adjacent selections for every selector-taking step'
         '; round 7: the first selected resource systematically; every case also read after all resources were taken from the stream'
-        '; round 8: the argument forms of validate (field + function, row function) under one selector over resources that do and do not declare the field')
+        '; round 8: the argument forms of validate (field + function, row function) under one selector over resources that do and do not declare the field'
+        '; round 9: foreign keys between the resources and a custom schema-level property (descriptors of unselected resources stay as they are)')
 TRUSTED = ['Coq 8.16.1 kernel + vm_compute', 'harness/p10.py printers (regex AST -> pattern text) and oracle',
            'Python re.fullmatch as the meaning of "fully matches" for the direct oracle; the Coq matcher is compared with it on every generated pattern',
            'gen_consts.py extraction of ResourceMatcher call-site arguments (ast)']
